@@ -486,6 +486,8 @@ var c15Shapes = []string{
 	"JSIGHT 0.3\nGET /a/{x}/b\n  200 any\nURL /a/{y}/b\n  POST\n    200 any\nTYPE @t any\n",
 	"JSIGHT 0.3\nGET /u\n  200 @late\nTYPE @other any\nENUM @e\n  [1]\n",
 	"JSIGHT 0.3\nGET /u\n  OperationId same\n  200 any\nPOST /u\n  OperationId same\n  200 any\nTAG @t\n",
+	// four types with more than one cycle (back references optional)
+	"JSIGHT 0.3\nTYPE @project\n  {\"board\": @board}\nTYPE @board\n  {\"card\": @card}\nTYPE @card\n  {\n    \"b\": @board, // {optional: true}\n    \"p\": @project, // {optional: true}\n    \"c\": @comment // {optional: true}\n  }\nTYPE @comment\n  {\n    \"p\": @project // {optional: true}\n  }\nGET /p\n  200 @project\n",
 	// one regex type embedded by two types and a response
 	"JSIGHT 0.3\nTYPE @r regex\n  /[a-z]{8}/\nTYPE @a\n  {\"x\": @r}\nTYPE @b\n  {\"y\": @r}\nGET /r\n  200 @r\n",
 	// or-shortcut and regex types, json-rpc
